@@ -36,6 +36,7 @@ type specEncoder struct {
 	globals map[string]string
 	depth   int
 	inOld   bool
+	bound   map[string]bool
 }
 
 type encErr struct{ msg string }
@@ -72,6 +73,9 @@ func (e *specEncoder) enc(x ast.Expr) *specNode {
 			return &specNode{Op: "result", I: 1}
 		case "result2":
 			return &specNode{Op: "result", I: 2}
+		}
+		if e.bound[v.Name] {
+			return &specNode{Op: "var", Name: v.Name}
 		}
 		if i, ok := e.params[v.Name]; ok {
 			return &specNode{Op: "param", I: i}
@@ -144,7 +148,26 @@ func (e *specEncoder) enc(x ast.Expr) *specNode {
 			return &specNode{Op: name, S: ts, Args: []*specNode{e.enc(v.Args[0])}}
 		case "int", "rune", "int64":
 			return e.enc(v.Args[0])
-		case "forall", "exists", "arrof", "offof", "absat", "selfcall":
+		case "forall", "exists":
+			// integer quantifiers are evaluated over a bounded range that covers every index of the
+			// (small) replayed slices
+			if len(v.Args) != 2 {
+				e.fail("typed quantifier cannot be evaluated at run time")
+			}
+			id := v.Args[0].(*ast.Ident).Name
+			if e.bound == nil {
+				e.bound = map[string]bool{}
+			}
+			saved := e.bound[id]
+			e.bound[id] = true
+			body := e.enc(v.Args[1])
+			e.bound[id] = saved
+			return &specNode{Op: name, Name: id, Args: []*specNode{body}}
+		case "offof":
+			return &specNode{Op: "int", N: 0} // offsets are not observable at run time: indices are relative
+		case "absat":
+			return &specNode{Op: "index", Args: []*specNode{e.enc(v.Args[0]), e.enc(v.Args[1])}}
+		case "arrof", "selfcall", "cntnl", "nlwritten":
 			e.fail("%s cannot be evaluated at run time", name)
 		}
 		if sf, ok := e.eng.specFuncs[name]; ok {
@@ -293,6 +316,7 @@ type vrEnv struct {
 	params  []reflect.Value
 	results []reflect.Value
 	olds    []reflect.Value
+	vars    map[string]int64
 }
 
 func vrDeref(v reflect.Value) reflect.Value {
@@ -378,6 +402,37 @@ func (e *vrEnv) eval(n *vrNode) reflect.Value {
 		return reflect.ValueOf(n.B)
 	case "nil", "none":
 		return reflect.Value{}
+	case "var":
+		return reflect.ValueOf(e.vars[n.Name])
+	case "forall", "exists":
+		if e.vars == nil {
+			e.vars = map[string]int64{}
+		}
+		saved, had := e.vars[n.Name]
+		res := n.Op == "forall"
+		for i := int64(-2); i <= 16; i++ {
+			e.vars[n.Name] = i
+			ok := func() (b bool) {
+				defer func() {
+					if r := recover(); r != nil {
+						b = n.Op == "forall" // out-of-range reads: the guard of the body excludes them
+					}
+				}()
+				return vrBool(e.eval(n.Args[0]))
+			}()
+			if n.Op == "forall" && !ok {
+				res = false
+			}
+			if n.Op == "exists" && ok {
+				res = true
+			}
+		}
+		if had {
+			e.vars[n.Name] = saved
+		} else {
+			delete(e.vars, n.Name)
+		}
+		return reflect.ValueOf(res)
 	case "param":
 		return e.params[n.I]
 	case "result":
